@@ -94,6 +94,8 @@ def close(a, b, rel, abs_=0.0):
         return a == b
     if math.isnan(a) or math.isnan(b):
         return math.isnan(a) and math.isnan(b)
+    if a == b:
+        return True          # equal infinities included
     return abs(a - b) <= rel * max(abs(a), abs(b)) + abs_
 
 
